@@ -4,6 +4,7 @@
     repair), Syncer/Finder.v, Syncer/Session.v. *)
 From Coq Require Import ZArith NArith List Bool.
 From Verif Require Import Syncer.Model Syncer.Proofs Syncer.Theorems Syncer.Progress Syncer.Idle Syncer.HashFetcher Syncer.Finder Syncer.FinderProofs Syncer.Session.
+From Verif Require Gen.SeqCases Syncer.SeqCheck.
 Import ListNotations.
 
 (** The invariant of the fetcher/processor loop is kept by every event (any response of any
@@ -180,3 +181,10 @@ Theorem C17_drain_idiom_refuted :
   hl_loc (hl_run true hl_init [HFire; HReadTimer; HRsp; HQuit]) = LBlockedOnTimer.
 Proof. exact drain_idiom_refuted. Qed.
 Print Assumptions C17_drain_idiom_refuted.
+
+(** Tie of the session theorems to the source, per message type: every message type consumed by
+    Syncer.handleMessage that carries a Seq field is a pointer case of verifySeq (go/ast translator
+    gen/gen_seqcases.go, reflection). *)
+Theorem C17_verify_seq_covers_consumed_messages : Syncer.SeqCheck.seq_cases_ok = true.
+Proof. exact Syncer.SeqCheck.verify_seq_covers_consumed_messages. Qed.
+Print Assumptions C17_verify_seq_covers_consumed_messages.
